@@ -82,7 +82,7 @@ def tt_union_rows(MatrixA: np.ndarray, MatrixB: np.ndarray) -> np.ndarray:
         MatrixBUnique[np.argsort(idxB)], MatrixAUnique[np.argsort(idxA)]
     )
     union = np.vstack(
-        (MatrixB[np.sort(idxB[np.where(location < 0)])], MatrixA[np.sort(idxA)])
+        (MatrixB[np.sort(idxB)[np.where(location < 0)]], MatrixA[np.sort(idxA)])
     )
     return union
 
@@ -240,7 +240,8 @@ def tt_setdiff_rows(MatrixA: np.ndarray, MatrixB: np.ndarray) -> np.ndarray:
     valid, location = tt_ismember_rows(
         MatrixBUnique[np.argsort(idxB)], MatrixAUnique[np.argsort(idxA)]
     )
-    return np.setdiff1d(idxA, location[valid])
+    # location indexes the unique rows of A in order of first occurrence
+    return np.setdiff1d(idxA, np.sort(idxA)[location[valid]])
 
 
 def tt_intersect_rows(MatrixA: np.ndarray, MatrixB: np.ndarray) -> np.ndarray:
@@ -276,10 +277,10 @@ def tt_intersect_rows(MatrixA: np.ndarray, MatrixB: np.ndarray) -> np.ndarray:
         MatrixBUnique, idxB = np.unique(MatrixB, axis=0, return_index=True)
     else:
         MatrixBUnique = idxB = np.array([], dtype=int)
-    valid, location = tt_ismember_rows(
-        MatrixBUnique[np.argsort(idxB)], MatrixAUnique[np.argsort(idxA)]
-    )
-    return location[valid]
+    # Common rows in sorted order (as MATLAB), each given by its first occurrence in A
+    # so that intersect(A, B) and intersect(B, A) enumerate the same rows in step
+    valid, _ = tt_ismember_rows(MatrixAUnique, MatrixBUnique)
+    return idxA[valid]
 
 
 def tt_irenumber(
